@@ -413,3 +413,27 @@ def shared_memo_stores(ctx, fn: FuncInfo) -> List[Tuple[ast.AST, str, List[str]]
                 if missing or key is None:
                     out.append((n, c, missing))
     return out
+
+
+def follow_delegation(ctx, fn: FuncInfo, param: str, depth: int = 0):  # type: ignore[no-untyped-def]
+    """A method that only hands its arguments on (`def _check(self, expr, tok): check(self.env, expr, tok)`): the
+    function that does the work and the name `param` has there; (fn, param) itself when `fn` does more than that."""
+    body = [b for b in fn.node.body if not (isinstance(b, ast.Expr) and isinstance(b.value, ast.Constant))]
+    if depth > 3 or len(body) != 1 or not isinstance(body[0], (ast.Expr, ast.Return)) or not isinstance(body[0].value, ast.Call):  # noqa: PLR2004
+        return fn, param
+    c = body[0].value
+    site = ctx.callgraph.by_node.get(id(c))
+    cands = [x for x in (site.callees if site is not None else []) if x.module.name.startswith("jsonpath")]
+    if len(cands) != 1 or cands[0] is fn:
+        return fn, param
+    callee = cands[0]
+    params = [a.arg for a in callee.node.args.args]
+    if callee.cls is not None and params and params[0] in ("self", "cls") and isinstance(c.func, ast.Attribute):
+        params = params[1:]
+    for i, a in enumerate(c.args):
+        if isinstance(a, ast.Name) and a.id == param and i < len(params):
+            return follow_delegation(ctx, callee, params[i], depth + 1)
+    for k in c.keywords:
+        if isinstance(k.value, ast.Name) and k.value.id == param and k.arg in params:
+            return follow_delegation(ctx, callee, k.arg, depth + 1)
+    return fn, param
